@@ -380,22 +380,26 @@ Definition sched_finish (cf : cfg) (s : state) : state :=
   let s := s <| s_fin := true |> in
   if is_seq (c_api cf) then take_s_tx s else s.   (* the fold state is dropped with the scheduler *)
 
+(** The stream half of one iteration of `ForEachConcurrent::poll`: below the limit, poll the
+    (wrapped, tracked) ready stream and push the new block; the flag is `made_progress`. *)
+Definition stream_step (cf : cfg) (s : state) : state * bool :=
+  if limit_ok cf s && s_alive s then
+    let '(s, r) := tracked_poll cf s in
+    match r with
+    | WItem x => (push_member s (mkMem x (Some x) false MNew), true)
+    | WInt (Some x) => (push_member s (mkMem x (Some x) true MNew), true)
+    | WInt None => (push_member s (mkMem (c_n cf) None true MNew), true)
+    | WNone => (drop_ready_rx s, false)
+    | WPending => (s, false)
+    end
+  else (s, false).
+
 (** `ForEachConcurrent::poll` (and, at limit 1, `Fold`/`TryFold::poll`). *)
 Fixpoint conc_loop (fuel : nat) (cf : cfg) (s : state) : state :=
   match fuel with
   | 0 => set_panic POof s
   | S f =>
-    let '(s, prog) :=
-      if limit_ok cf s && s_alive s then
-        let '(s, r) := tracked_poll cf s in
-        match r with
-        | WItem x => (push_member s (mkMem x (Some x) false MNew), true)
-        | WInt (Some x) => (push_member s (mkMem x (Some x) true MNew), true)
-        | WInt None => (push_member s (mkMem (c_n cf) None true MNew), true)
-        | WNone => (drop_ready_rx s, false)
-        | WPending => (s, false)
-        end
-      else (s, false) in
+    let '(s, prog) := stream_step cf s in
     let '(s, fr) := runq_loop (length (runq s) + 1) cf s in
     if s_fin s then s else
     match fr with
